@@ -163,6 +163,7 @@ def scope_case(rng):
     ss = helpers(p)
     counter = [0]
     names_pool = ["a", "b", "c", "x", "y"]
+    mm_ok = [False]
 
     def gen_block(depth, visible):
         out = []
@@ -184,6 +185,13 @@ def scope_case(rng):
                 out.append(p.assign([p.id("probed"), p.id("nprobed")], [p.table([]), p.num(0)]))
                 out.append(p.do(p.block(gen_block(depth - 1, vis))))
                 out.append(p.emit([p.str("P"), p.id("nprobed"), p.call(p.id("unpack"), [p.id("probed"), p.num(1), p.id("nprobed")])]))
+                if mm_ok[0] and rng.random() < 0.6:
+                    # the FIRST instruction after the block calls out by itself (operands already in registers):
+                    # an arithmetic / unary / index event on the local mm, whose handler looks at this frame
+                    ev = rng.choice(["add", "unm", "index", "concat"])
+                    e = {"add": lambda: p.bin("+", p.id("mm"), p.id("mm")), "unm": lambda: p.un("-", p.id("mm")),
+                         "index": lambda: p.index(p.id("mm"), p.id("mm")), "concat": lambda: p.bin("..", p.id("mm"), p.id("mm"))}[ev]()
+                    out.insert(len(out) - 1, p.assign([p.id("gsink")], [e]))
             elif c < 0.82 and depth > 0:
                 out.append(p.fornum("i", p.num(1), p.num(2), 0, p.block(gen_block(depth - 1, vis + ["i"]))))
             elif c < 0.88 and depth > 0:
@@ -210,7 +218,11 @@ def scope_case(rng):
 
     def after_probe():
         return p.emit([p.str("P"), p.id("nprobed"), p.call(p.id("unpack"), [p.id("probed"), p.num(1), p.id("nprobed")])])
-    body = gen_block(2, [])
+    mm_ok[0] = True
+    h = lambda: p.func([], p.block([p.callstat(p.call(p.id("probe"), [p.num(2)])), p.ret([p.num(0)])]))
+    mmdecl = p.local(["mm"], [p.call(p.id("setmetatable"), [p.table([]), p.table([("k", p.add("str", s=list(b"__add"), name=True), h()), ("k", p.add("str", s=list(b"__unm"), name=True), h()),
+                                                                                 ("k", p.add("str", s=list(b"__index"), name=True), h()), ("k", p.add("str", s=list(b"__concat"), name=True), h())])])])
+    body = [mmdecl] + gen_block(2, ["mm"])
     main_fn = p.func(["pa", "pb"], p.block(body), va=rng.random() < 0.3, ud=False)
     ss.append(p.localfunction("main", main_fn))
     ss.append(p.callstat(p.call(p.id("main"), [p.num(11), p.num(22), p.num(33)])))
@@ -254,4 +266,38 @@ def info_case(rng):
         ss.append(p.local(["fi"], [p.call(_dbg(p, "getinfo"), [p.id("fn%d" % i), p.str("S")])]))
         ss.append(p.emit([p.str("of%d" % i), p.field(p.id("fi"), "linedefined"), p.field(p.id("fi"), "lastlinedefined")]))
     ss.append(p.emit([p.str("main"), p.field(p.call(_dbg(p, "getinfo"), [p.num(1), p.str("l")]), "currentline")]))
+    return p, p.block(ss)
+
+
+def xthread_case(variant):
+    """debug.setupvalue / getupvalue / setlocal on variables that live in ANOTHER thread's registers (still open there)"""
+    p = Prog()
+    co = lambda n: p.field(p.id("coroutine"), n)
+    ss = helpers(p)
+    ss += [p.local(["pad1", "pad2"], [p.num(901), p.num(902)]),
+           p.local(["x"], [p.num(1)]),
+           p.localfunction("f", p.func([], p.block([p.ret([p.id("x")])]))),
+           p.local(["pad3", "pad4", "pad5"], [p.num(903), p.num(904), p.num(905)])]
+    body = [p.local(["q1", "q2", "q3", "q4", "q5", "q6"], [p.num(801), p.num(802), p.num(803), p.num(804), p.num(805), p.num(806)]),
+            p.local(["y"], [p.num(10)]),
+            p.localfunction("g", p.func([], p.block([p.ret([p.id("y")])]))),
+            # from inside the coroutine: change the main thread's open upvalue
+            p.emit([p.str("co-setup"), p.call(p.id("setup"), [p.id("f"), p.str("x"), p.num(2)]), p.call(p.id("f"), []), p.field(p.call(p.id("ups"), [p.id("f")]), "x")]),
+            p.emit([p.str("co-locals"), p.id("q1"), p.id("q2"), p.id("q3"), p.id("q4"), p.id("q5"), p.id("q6"), p.id("y")]),
+            p.local(["back"], [p.call(co("yield"), [p.id("g")])]),
+            p.emit([p.str("co-after"), p.id("y"), p.call(p.id("g"), []), p.id("back"), p.id("q1"), p.id("q2"), p.id("q3"), p.id("q4"), p.id("q5"), p.id("q6")])]
+    if variant == "closed":
+        body.append(p.ret([p.id("g")]))
+    ss += [p.local(["c"], [p.call(co("create"), [p.func([], p.block(body))])]),
+           p.local(["ok", "g"], [p.call(co("resume"), [p.id("c")])]),
+           p.emit([p.str("main-1"), p.id("ok"), p.id("x"), p.call(p.id("f"), []), p.id("pad1"), p.id("pad2"), p.id("pad3"), p.id("pad4"), p.id("pad5")]),
+           # from the main thread: change the suspended coroutine's open upvalue
+           p.emit([p.str("main-setup"), p.call(p.id("setup"), [p.id("g"), p.str("y"), p.num(20)]), p.call(p.id("g"), []), p.field(p.call(p.id("ups"), [p.id("g")]), "y")]),
+           p.emit([p.str("main-2"), p.id("x"), p.id("pad1"), p.id("pad2"), p.id("pad3"), p.id("pad4"), p.id("pad5")])]
+    if variant == "closed":
+        ss += [p.local(["ok2", "g2"], [p.call(co("resume"), [p.id("c"), p.str("B")])]),
+               p.emit([p.str("dead"), p.call(co("status"), [p.id("c")]), p.call(p.id("setup"), [p.id("g2"), p.str("y"), p.num(30)]), p.call(p.id("g2"), []), p.call(p.id("g"), [])])]
+    else:
+        ss += [p.emit([p.str("main-3"), p.call(co("resume"), [p.id("c"), p.str("B")])])]
+    ss.append(p.emit([p.str("end"), p.id("x"), p.call(p.id("f"), []), p.id("pad1"), p.id("pad5")]))
     return p, p.block(ss)
